@@ -121,13 +121,12 @@ DoNewRecord == AddItem(TRUE)
 DoSameRecord == AddItem(FALSE)
 
 KindCode(k) == CASE k = "none" -> 0 [] k = "inf" -> 1 [] k = "mil" -> 2 [] k = "val" -> 3 [] OTHER -> 4
+ItemCode(it) == it.form * 7 + KindCode(it.lk) * 3 + KindCode(it.uk) * 5 + (IF it.fix THEN 11 ELSE 0) + it.rep * 13
+                + (IF it.name # "" THEN 17 ELSE 0) + it.sp * 19
 LayoutHash(rs) == LET f == Flat(rs)
-                      RECURSIVE H(_)
-                      H(k) == IF k > Len(f) THEN 0
-                              ELSE (k + 1) * (f[k].form * 7 + KindCode(f[k].lk) * 3 + KindCode(f[k].uk) * 5
-                                              + (IF f[k].fix THEN 11 ELSE 0) + f[k].rep * 13
-                                              + (IF f[k].name # "" THEN 17 ELSE 0)) + H(k + 1)
-                  IN H(1) + 19 * Len(rs)
+                      RECURSIVE H(_, _)
+                      H(k, acc) == IF k > Len(f) THEN acc ELSE H(k + 1, (acc * 131 + ItemCode(f[k])) % 10007)
+                  IN (H(1, 7) * 131 + Len(rs)) % 10007
 StartEdit ==
     /\ phase = "build" /\ Len(recs) > 0
     /\ NSlices = 1 \/ LayoutHash(recs) % NSlices = Slice
